@@ -265,6 +265,20 @@ func near(a, b, scale float64) bool {
 func Normalize(in []Seg) []Seg {
 	var out []Seg
 	var x, y, x0, y0 float64
+	// "on the same point" within the tolerance of Equal: coordinates computed by adding relative
+	// offsets differ from the written ones by a rounding error (1e6 + 1.5 - 1.5 + 1e-6 ...)
+	scale := 1.0
+	for _, s := range in {
+		for _, v := range []float64{s.X, s.Y, s.X1, s.Y1, s.X2, s.Y2} {
+			if math.Abs(v) > scale && !math.IsInf(v, 0) && !math.IsNaN(v) {
+				scale = math.Abs(v)
+			}
+		}
+	}
+	eps := 1e-9 * scale
+	same := func(ax, ay, bx, by float64) bool {
+		return ax == bx && ay == by || math.Abs(ax-bx) <= eps && math.Abs(ay-by) <= eps
+	}
 	for _, s := range in {
 		switch s.Cmd {
 		case 'M':
@@ -279,16 +293,16 @@ func Normalize(in []Seg) []Seg {
 			out = append(out, s)
 			continue
 		case 'C':
-			on := func(px, py float64) bool { return px == x && py == y || px == s.X && py == s.Y }
+			on := func(px, py float64) bool { return same(px, py, x, y) || same(px, py, s.X, s.Y) }
 			if on(s.X1, s.Y1) && on(s.X2, s.Y2) {
 				s = Seg{Cmd: 'L', X: s.X, Y: s.Y}
 			}
 		case 'Q':
-			if s.X1 == x && s.Y1 == y || s.X1 == s.X && s.Y1 == s.Y {
+			if same(s.X1, s.Y1, x, y) || same(s.X1, s.Y1, s.X, s.Y) {
 				s = Seg{Cmd: 'L', X: s.X, Y: s.Y}
 			}
 		}
-		if s.Cmd == 'L' && s.X == x && s.Y == y {
+		if s.Cmd == 'L' && same(s.X, s.Y, x, y) {
 			continue
 		}
 		out = append(out, s)
